@@ -183,3 +183,31 @@ Proof.
   apply render_rfc_text; [vm_compute; reflexivity|exact F].
 Qed.
 Print Assumptions C03_rfc_example.
+
+(* ---- "re-encoding to the identical JSONB bytes whenever the original stores its non-negative integers unsigned"
+   (Extra03.v).  unsigned_ints v: no Int64 number >= 0 anywhere in v.  The value the library's reader makes of either
+   rendering, encoded with to_vec, is `enc v` byte for byte: at tree level (the reader's value IS v) and for what the byte
+   walkers to_string / to_pretty_string print for `enc v`.  The hypothesis is exact: the reader's value is v iff
+   unsigned_ints v (otherwise it is `unsign v`, equal under compare, with different bytes: Extra03.reencode_example). *)
+From JB Require Import CodecProofs Extra03.
+Theorem C03_unsigned_integers_are_read_back_as_stored : forall v, unsigned_ints v = true <-> unsign v = v.
+Proof. intros v. split; [apply unsigned_ints_unsign|apply unsign_fix_unsigned_ints]. Qed.
+Print Assumptions C03_unsigned_integers_are_read_back_as_stored.
+
+Theorem C03_reencoding_the_parsed_rendering_gives_identical_bytes :
+  (forall pf pretty v d, wf_shape v = true -> wf_size v = true -> (forall b, In b (floats_of v) -> rfc_float_text pf b) ->
+     unsigned_ints v = true ->
+     parse_value (render pf pretty 0 v) = Ok d -> d = v /\ to_vec d = enc v) /\
+  (forall pf v, wfb v = true -> top_ok v -> finite_numbers v = true ->
+     (forall b, In b (floats_of v) -> rfc_float_text pf b) -> unsigned_ints v = true ->
+     exists tc tp dc dp,
+       to_string_w' pf (enc v) = Ok tc /\ to_pretty_string_w' pf (enc v) = Ok tp /\
+       parse_value tc = Ok dc /\ parse_value tp = Ok dp /\ to_vec dc = enc v /\ to_vec dp = enc v).
+Proof. split; [exact reencode_parsed_rendering|exact reencode_walker_rendering]. Qed.
+Print Assumptions C03_reencoding_the_parsed_rendering_gives_identical_bytes.
+
+Theorem C03_reencoding_without_the_hypothesis : forall pf pretty v d,
+  wf_shape v = true -> (forall b, In b (floats_of v) -> rfc_float_text pf b) ->
+  parse_value (render pf pretty 0 v) = Ok d -> d = unsign v /\ cmp_value d v = Eq /\ (d = v <-> unsigned_ints v = true).
+Proof. exact reencode_parsed_rendering_any. Qed.
+Print Assumptions C03_reencoding_without_the_hypothesis.
